@@ -541,9 +541,15 @@ def run_splinecv(tape, stats):
         if tape.draw(2, "mindist.order"):
             mindists.reverse()
     grid = [(m, d) for m in (mindists or [None]) for d in dampings]
-    sample = {"op": "SplineCV.fit", "data": ds.desc, "mindists": mindists, "dampings": dampings, "cv": cvspec, "scoring": scoring, "mode": mode}
+    # optional fixed force locations (a constructor parameter handed on to every candidate and to the refit)
+    fc = None
+    if tape.coin(0.25, "use_force_coords"):
+        rs_fc = np.random.RandomState(tape.subseed("force_coords"))
+        nf = tape.randint(6, 10, "nforces")
+        fc = [list(np.round(rs_fc.uniform(0, 100, nf), 3)), list(np.round(rs_fc.uniform(-60, 40, nf), 3))]
+    sample = {"op": "SplineCV.fit", "data": ds.desc, "mindists": mindists, "dampings": dampings, "force_coords": None if fc is None else len(fc[0]), "cv": cvspec, "scoring": scoring, "mode": mode}
     stats["sample"] = sample
-    per = [model_cross_val(ds, ["spline", d, m], cvspec, scoring) for m, d in grid]
+    per = [model_cross_val(ds, ["spline", d, m, fc], cvspec, scoring) for m, d in grid]
     if any(isinstance(p, Exception) for p in per):
         raise HarnessError(f"model raised for a plain damped spline: {per}")
     want_means = [float(np.mean(p)) for p in per]
@@ -555,6 +561,8 @@ def run_splinecv(tape, stats):
     stats["ex"] = ex
     key = None
     mkw = {"mindists": tuple(mindists)} if mindists else {}
+    if fc is not None:
+        mkw["force_coords"] = tuple(np.array(c, dtype=float) for c in fc)
     try:
         if mode == "serial":
             scv = vd.SplineCV(dampings=tuple(dampings), cv=build_cv(cvspec), scoring=build_scoring(scoring), **mkw)
@@ -610,7 +618,7 @@ def run_splinecv(tape, stats):
             )
         stats["probes"]["selection_checked"] = 1
     # predicts exactly like a Spline with the selected parameters fitted to ALL the data
-    ref = build_estimator(["spline", scv.damping_, scv.mindist_ if mindists else None]).fit(*args)
+    ref = build_estimator(["spline", scv.damping_, scv.mindist_ if mindists else None, fc]).fit(*args)
     rs = np.random.RandomState(tape.subseed("query"))
     q = (rs.uniform(0, 100, 15), rs.uniform(-60, 40, 15))
     got_p = scv.predict(q)
